@@ -167,6 +167,25 @@ def run_property(pid, tier, seed, repo='/repo', only_deductive=False, timeout=No
             for lem in getattr(mod, 'LEMMAS', []):
                 if lem['name'] == ln:
                     fun_info.append(verify.verify_lemma(ctx, lem))
+    import numpy as _np
+    for cf in P.get('case_functions', []):
+        cmod = importlib.import_module(cf['module'])
+        relpath, qual = cf['key'].split('::')
+        for (label, struct, *cargs) in cmod.cases(tier, _np.random.default_rng(seed)):
+            ctx.add_contracts({cf['key']: cmod.contract_for(*cargs)})
+            try:
+                rep = verify.verify_function(ctx, relpath, qual, struct=struct, label=label)
+            except Exception as e:
+                rep = dict(function=cf['key'] + ' [%s]' % label, out_of_reach='engine exception: %s' % traceback.format_exc()[-800:], hash=None)
+                ctx.fun_reports.append(rep)
+            fun_info.append(rep)
+            if rep.get('out_of_reach'):
+                bounded_only.append((rep['function'], rep['out_of_reach']))
+                continue
+            if rep['pre_satisfiable'] != 'sat':
+                engine_errors.append('precondition of %s not shown satisfiable (%s)' % (rep['function'], rep['pre_satisfiable']))
+            if rep['canary_refuted'] is not True:
+                engine_errors.append('canary at the exit of %s not refuted' % rep['function'])
     for f in P['functions']:
         relpath, qual = f['key'].split('::')
         try:
